@@ -126,6 +126,13 @@ CHECKS = {
         "Two generated projects; the fresh-process clause is repetition (3 sub-processes), not enumeration.",
         "5/C08",
     ),
+    "C15": (
+        "fault_enumeration",
+        "exhaustive enumeration of the ASD optimiser's decision paths (scripted random stream) on the real optimize()/calibrate(), and of every crash point (exception injected into the k-th simulation) of calibrate, optimize, run_optimization and reconcile",
+        "Every sequence of (parameter, direction) choices ASD can make within the iteration bound is executed on the real code and the returned result checked (objective recomputed from Result arrays no worse, bounds, total-spend and hard targets kept, library objective equals the documented sum); for every k up to the number of simulations of a reference run a fault is injected into the k-th simulation and all caller-owned objects, including the temporarily shortened end year, are snapshot-compared.",
+        "ASD only, paths up to maxiters 2/3, small generated problems; sciris is third-party code driven through a scripted generator.",
+        "5/C15",
+    ),
 }
 
 PENDING_REASON = "check not built yet in this session (see DESIGN.md section 8 for the build order); no claim is made"
